@@ -36,6 +36,10 @@ type handlerTransport struct {
 }
 
 func (t handlerTransport) RoundTrip(r *http.Request) (*http.Response, error) {
+	// As net/http's transport: a request whose context has ended fails.
+	if err := r.Context().Err(); err != nil {
+		return nil, err
+	}
 	rec := httptest.NewRecorder()
 	t.h.ServeHTTP(rec, r)
 	res := rec.Result()
